@@ -66,19 +66,20 @@ class SymRng:
         return u
 
 
-def uf(name, d):
-    return z3.Function(name, *([core.R] * (d + 1)))
+def uf(name, d, sort=None):
+    sort = core.R if sort is None else sort
+    return z3.Function(name, *([sort] * (d + 1)))
 
 
 class UserFns:
     """Uninterpreted log-likelihood L, log-prior PI and proposal log-density Q,
     applied row-wise: deterministic functions of the coordinates only."""
 
-    def __init__(self, d, names=("L", "PI", "Q")):
+    def __init__(self, d, names=("L", "PI", "Q"), sort=None):
         self.d = d
-        self.L = uf(names[0], d)
-        self.PI = uf(names[1], d)
-        self.Q = uf(names[2], d)
+        self.L = uf(names[0], d, sort)
+        self.PI = uf(names[1], d, sort)
+        self.Q = uf(names[2], d, sort)
 
     def rows(self, x):
         x = sx.asarray(x)
